@@ -236,8 +236,9 @@ Fixpoint run (cf : config) (s : state) (ls : list label) : option state :=
 (* no transition of the code itself is enabled: the state lasts until the environment acts *)
 Definition stable (cf : config) (s : state) : bool :=
   match enabled_int cf s with [] => true | _ => false end.
-(* nothing of this recoverer is left: Start has returned and no service goroutine exists *)
-Definition quiescent (s : state) : bool := is_tret (s_t s) && negb (g_live (s_g s)).
+(* nothing of this recoverer is left: Start has returned (or was never called) and no service goroutine exists *)
+Definition t_gone (p : tpc) : bool := match p with TIdle | TRet _ => true | _ => false end.
+Definition quiescent (s : state) : bool := t_gone (s_t s) && negb (g_live (s_g s)).
 
 Definition cfg_old (k : kind) : config := mkConfig false false false k.
 Definition cfg_new (k : kind) : config := mkConfig true true true k.
@@ -325,9 +326,9 @@ Definition wmsg (m : msg) : nat := match m with MStopped => 4 | _ => 1 end.
 Definition qmu_t (p : tpc) : nat :=
   match p with
   | TRet _ => 0 | TSel => 1 | TStop => 1 | TReChk => 2 | TCool => 3
-  | TRespawn => 9 | TSetRun => 9 | TSpawn => 10 | TChk => 11 | TNew => 12 | TIdle => 13 end.
+  | TRespawn => 11 | TSetRun => 11 | TSpawn => 12 | TChk => 13 | TNew => 14 | TIdle => 15 end.
 Definition qmu_g (p : gpc) : nat :=
-  match p with GNone | GDone => 0 | GSend m => 1 + wmsg m | GActive => 6 | GLaunched => 7 end.
+  match p with GNone | GDone => 0 | GSend m => 1 + wmsg m | GActive => 8 | GLaunched => 9 end.
 Definition qmu (cf : config) (s : state) : nat :=
   qmu_t (s_t s) + qmu_g (s_g s) + match s_buf s with Some m => wmsg m | None => 0 end
   + (if e_preq s then 0 else 1) + (if e_rreq s || is_once (knd cf) then 0 else 1).
